@@ -476,19 +476,37 @@ def gen_leaf(rng, o, kind=None):
     return {"k": k, "f": rng.choice(NUMF), "qf": gen_flavour(rng, o)}
 
 
+DEC = [-1.1, -0.7, -0.3, -0.1, 0.1, 0.2, 0.3, 0.7, 1.1, 2.2, 1.0 / 3, 2.0 / 3, 1e6 + 0.1, 1e6 + 0.7]
+DEC_WIDTHS = [0.3, 0.7, 0.9, 1.0, 1.1, 1.3, 1.0 / 3]
+
+
 def gen_config(rng, k, o, small=False):
+    """Geometry of a binning: dyadic (every edge exact), a hand-picked hostile one, or - half of the hostile draws -
+    drawn from a pool of decimal fractions, so that edge / midpoint formulas that are algebraically equal but round
+    differently are told apart on ever-new geometries."""
     hostile = rng.random() < o.get("hostile", 0.4)
+    drawn = hostile and rng.random() < 0.5
     if k == "Bin":
-        num, low, high = rng.choice(BIN_HOSTILE if hostile else BIN_DYADIC)
+        if drawn:
+            low = rng.choice(DEC)
+            num, high = rng.choice([1, 2, 3, 5, 7, 10, 12]), low + rng.choice(DEC_WIDTHS)
+        else:
+            num, low, high = rng.choice(BIN_HOSTILE if hostile else BIN_DYADIC)
         if small and num > 5:
             num, low, high = rng.choice(BIN_DYADIC[:2] + BIN_DYADIC[3:4])
         return {"num": num, "low": low, "high": high}
     if k == "SparselyBin":
+        if drawn:
+            return {"bw": rng.choice(DEC_WIDTHS[:3] + DEC_WIDTHS[4:]), "origin": rng.choice(DEC)}
         bw, origin = rng.choice(SP_HOSTILE if hostile else SP_DYADIC)
         return {"bw": bw, "origin": origin}
     if k == "CentrallyBin":
+        if drawn:
+            return {"centers": rng.sample(DEC, rng.randint(2, 4))}
         return {"centers": list(rng.choice(CENTERS_HOSTILE if hostile else CENTERS_DYADIC))}
     if k in ("IrregularlyBin", "Stack"):
+        if drawn:
+            return {"edges": sorted(rng.sample(DEC, rng.randint(1, 4)))}
         return {"edges": list(rng.choice(EDGES_HOSTILE if hostile else EDGES_DYADIC))}
     return {}
 
@@ -674,6 +692,50 @@ def gen_record(rng, crit, o):
     for f in SELF:
         rec[f] = rng.choice(SELECTIONS) if rng.random() < 0.8 else True
     return rec
+
+
+def retype_value(rng, v):
+    """The same number in another numeric type a quantity function may return (the elements of an integer or float32
+    column, a numpy boolean from a comparison).  Only value-preserving conversions: integers for integral values,
+    float32 only for NaN (float32 arithmetic is legitimately less precise)."""
+    import numpy as np
+
+    if isinstance(v, bool):
+        return v  # numpy.bool_ is not a number (numbers.Real): the library rejects it by design, see DESIGN 5.3
+    if isinstance(v, int):
+        return rng.choice([v, np.int64(v), np.int32(v)] + ([np.uint8(v)] if 0 <= v < 256 else []))
+    if not isinstance(v, float):
+        return v
+    if v != v:
+        return rng.choice([np.float64(v), np.float32(v)])
+    if v in (float("inf"), float("-inf")):
+        # not float32 / float16: numpy casts the Python float on the other side of an operator to the narrow type
+        # (inf - 1e15 is NaN in float16, float32(inf) > 1e300 is False), which is the type's arithmetic, not the library's
+        return np.float64(v)
+    c = [np.float64(v)]
+    if v.is_integer() and abs(v) < 2**31 and not (v == 0 and math.copysign(1.0, v) < 0):
+        c += [int(v), np.int64(int(v)), np.int32(int(v))]
+        if 0 <= v < 256:
+            c.append(np.uint8(int(v)))
+        if 0 <= v < 2**16:
+            c.append(np.uint16(int(v)))
+    return rng.choice(c)
+
+
+def retype_record(rng, rec, p=0.6):
+    """Copy of the record with each numeric / selection field re-typed with probability p (values unchanged)."""
+    out = dict(rec)
+    import numpy as np
+
+    for f in NUMF + SELF:
+        if rng.random() < p:
+            v = retype_value(rng, rec[f])
+            if f in SELF and isinstance(v, np.unsignedinteger):
+                # a selection value becomes the weight handed down; an unsigned numpy weight times a negative Python int
+                # is an OverflowError by numpy's own promotion rules (NEP 50), whatever the library does
+                v = np.int64(v)
+            out[f] = v
+    return out
 
 
 def gen_weight(rng, o):
